@@ -153,8 +153,8 @@ def transmit(script, chan, start_frame, df):
     for w in words:
       if is_code_word(w):
         twice = double or (last_logical == w)
-        if twice and cur is not None and len(cur[1]) >= chan["line_len"] - 1:
-          cur = None  # keep both copies on one line
+        if twice and cur is not None and len(cur[1]) >= chan["line_len"] - 1 and rng.random() >= chan.get("split", 0.0):
+          cur = None  # keep both copies on one line (unless this channel splits pairs across contiguous lines)
         emit(w, 1, ui)
         if twice:
           emit(w, 1, ui)
